@@ -16,23 +16,6 @@ From Coq Require Import String Lia.
 Open Scope N_scope.
 Open Scope list_scope.
 
-Section WithBlacklist.
-Variable bl : cmd -> arg -> list bytes.
-Local Notation arg_conflicts := (ZshModel.arg_conflicts bl).
-Local Notation opt_short_line := (ZshModel.opt_short_line bl).
-Local Notation opt_long_line := (ZshModel.opt_long_line bl).
-Local Notation opt_lines := (ZshModel.opt_lines bl).
-Local Notation write_opts_of := (ZshModel.write_opts_of bl).
-Local Notation zflag_line := (ZshModel.zflag_line bl).
-Local Notation flag_lines := (ZshModel.flag_lines bl).
-Local Notation write_flags_of := (ZshModel.write_flags_of bl).
-Local Notation get_args_of := (ZshModel.get_args_of bl).
-Local Notation get_subcommands_of := (ZshModel.get_subcommands_of bl).
-Local Notation zsh_pieces := (ZshModel.zsh_pieces bl).
-Local Notation zsh_script := (ZshModel.zsh_script bl).
-Local Notation generate_zsh := (ZshModel.generate_zsh bl).
-Local Notation args_block := (ZshProofs.args_block bl).
-
 (** ---- the lexer threaded through the pieces ---- *)
 Fixpoint zrun (st : zstate) (l : list zpiece) : option zstate :=
   match l with
@@ -198,7 +181,7 @@ Proof.
   cbn [map positional_lines fst snd].
   destruct (ce && (arg_is_last a || (1 <? a_max_values a))); [apply IH|].
   destruct ((1 <? a_max_values a) && negb hs).
-  - unfold arg_terminator. cbn [map]. rewrite IH, positional_line_erase. reflexivity.
+  - unfold arg_terminator. destruct (a_terminator a); cbn [map]; rewrite IH, positional_line_erase; reflexivity.
   - destruct (negb (a_required a)); cbn [map]; rewrite IH, positional_line_erase; reflexivity.
 Qed.
 
@@ -232,9 +215,9 @@ Proof.
   unfold is_pos. rewrite (filter_map_fst a_is_positional erase_adesc). apply positional_lines_erase.
 Qed.
 
-Lemma get_args_of_erase c d g : get_args_of c (erase_desc d) g = option_map' (map zperase) (get_args_of c d g).
+Lemma args_body_erase c d g : args_body c (erase_desc d) g = option_map' (map zperase) (args_body c d g).
 Proof.
-  unfold ZshModel.get_args_of. rewrite write_opts_of_erase, write_flags_of_erase, write_positionals_of_erase, !is_nil_map.
+  unfold ZshModel.args_body. rewrite write_opts_of_erase, write_flags_of_erase, write_positionals_of_erase, !is_nil_map.
   assert (E : forall tl : list (list zpiece), map (map zperase) tl = tl ->
     zjoin znl (([args_header]
                  ++ (if negb (is_nil (write_opts_of c d g)) then [map zperase (write_opts_of c d g)] else [])
@@ -252,6 +235,11 @@ Proof.
   destruct (has_subcommands c).
   - destruct (c_bin c); [|reflexivity]. cbn [option_map']. f_equal. apply E. reflexivity.
   - cbn [option_map']. f_equal. apply E. reflexivity.
+Qed.
+(** whether an [arg_conflicts] call panics does not depend on the texts *)
+Lemma get_args_of_erase c d g : get_args_of c (erase_desc d) g = option_map' (map zperase) (get_args_of c d g).
+Proof.
+  unfold ZshModel.get_args_of. destruct (negb (conflicts_resolve c g)); [reflexivity|apply args_body_erase].
 Qed.
 
 Lemma parser_of_d_erase : forall c d b,
@@ -562,12 +550,22 @@ Proof.
   apply (run_to_app P P P); assumption.
 Qed.
 
-Lemma run_opt_vc p : tame_arg (fst p) = true -> run_to is_sq is_sq (opt_vc p).
+(** value names are written as they are between the colons of an option spec: part of the class *)
+Definition vn_tame (a : arg) : bool := forallb tame (a_value_names a).
+Lemma tame_value_name a : vn_tame a = true -> tame (value_name a) = true.
 Proof.
-  intros Ht. unfold opt_vc. apply run_concat_repeat.
+  unfold vn_tame, value_name. destruct (a_value_names a) as [|v t]; [reflexivity|]. cbn [forallb].
+  intros H. apply andb_true_iff in H. tauto.
+Qed.
+Lemma run_opt_vc p : tame_arg (fst p) = true -> vn_tame (fst p) = true -> run_to is_sq is_sq (opt_vc p).
+Proof.
+  intros Ht Hv. unfold opt_vc. apply run_concat_repeat.
+  assert (Hvn : pres is_sq is_sq (value_name (fst p))) by (apply pres_tame_sq, tame_value_name; exact Hv).
   destruct (zvalue_completion p) as [val|] eqn:E.
-  - apply (run_to_cons_zx is_sq is_sq); [lit_pres|]. eapply run_zvalue_completion; eassumption.
-  - apply run_to_zx. lit_pres.
+  - apply (run_to_cons_zx is_sq is_sq).
+    { apply (pres_app is_sq is_sq is_sq [58]); [lit_pres|]. apply (pres_app is_sq is_sq is_sq); [exact Hvn|lit_pres]. }
+    eapply run_zvalue_completion; eassumption.
+  - apply run_to_zx. apply (pres_app is_sq is_sq is_sq [58]); [lit_pres|]. apply (pres_app is_sq is_sq is_sq); [exact Hvn|lit_pres].
 Qed.
 
 (** ---- spec lines: from between words to the backslash at the end of the line ---- *)
@@ -582,9 +580,9 @@ Proof. lit_pres. Qed.
 
 Lemma run_opt_short_line c g p s :
   tame (arg_conflicts c (fst p) g) = true ->
-  tame_arg (fst p) = true -> tame s = true -> run_to zbare is_bs (opt_short_line c g p s).
+  tame_arg (fst p) = true -> vn_tame (fst p) = true -> tame s = true -> run_to zbare is_bs (opt_short_line c g p s).
 Proof.
-  intros Hcf Ht Hs. unfold ZshModel.opt_short_line.
+  intros Hcf Ht Hv Hs. unfold ZshModel.opt_short_line.
   apply (run_to_cons_zx zbare is_sq).
   { apply (pres_app zbare is_sq is_sq [39]); [apply pres_open_sq|].
     apply (pres_app is_sq is_sq is_sq (arg_conflicts c (fst p) g)); [apply pres_tame_sq; exact Hcf|].
@@ -592,13 +590,13 @@ Proof.
     apply (pres_app is_sq is_sq is_sq [45]); [lit_pres|].
     apply (pres_app is_sq is_sq is_sq s); [apply pres_tame_sq; exact Hs|lit_pres]. }
   apply run_to_cons_zh. apply (run_to_cons_zx is_sq is_sq); [lit_pres|].
-  apply (run_to_app is_sq is_sq is_bs); [apply run_opt_vc; exact Ht|]. apply run_to_zx, pres_close_line.
+  apply (run_to_app is_sq is_sq is_bs); [apply run_opt_vc; [exact Ht|exact Hv]|]. apply run_to_zx, pres_close_line.
 Qed.
 Lemma run_opt_long_line c g p s :
   tame (arg_conflicts c (fst p) g) = true ->
-  tame_arg (fst p) = true -> tame s = true -> run_to zbare is_bs (opt_long_line c g p s).
+  tame_arg (fst p) = true -> vn_tame (fst p) = true -> tame s = true -> run_to zbare is_bs (opt_long_line c g p s).
 Proof.
-  intros Hcf Ht Hs. unfold ZshModel.opt_long_line.
+  intros Hcf Ht Hv Hs. unfold ZshModel.opt_long_line.
   apply (run_to_cons_zx zbare is_sq).
   { apply (pres_app zbare is_sq is_sq [39]); [apply pres_open_sq|].
     apply (pres_app is_sq is_sq is_sq (arg_conflicts c (fst p) g)); [apply pres_tame_sq; exact Hcf|].
@@ -606,16 +604,17 @@ Proof.
     apply (pres_app is_sq is_sq is_sq [45; 45]); [lit_pres|].
     apply (pres_app is_sq is_sq is_sq s); [apply pres_tame_sq; exact Hs|lit_pres]. }
   apply run_to_cons_zh. apply (run_to_cons_zx is_sq is_sq); [lit_pres|].
-  apply (run_to_app is_sq is_sq is_bs); [apply run_opt_vc; exact Ht|]. apply run_to_zx, pres_close_line.
+  apply (run_to_app is_sq is_sq is_bs); [apply run_opt_vc; [exact Ht|exact Hv]|]. apply run_to_zx, pres_close_line.
 Qed.
 Lemma run_opt_lines c g p line :
-  tame (arg_conflicts c (fst p) g) = true -> tame_arg (fst p) = true -> In line (opt_lines c g p) -> run_to zbare is_bs line.
+  tame (arg_conflicts c (fst p) g) = true -> tame_arg (fst p) = true -> vn_tame (fst p) = true ->
+  In line (opt_lines c g p) -> run_to zbare is_bs line.
 Proof.
-  intros Hcf Ht Hl. unfold ZshModel.opt_lines in Hl. apply in_app_or in Hl. destruct Hl as [Hl|Hl].
+  intros Hcf Ht Hv Hl. unfold ZshModel.opt_lines in Hl. apply in_app_or in Hl. destruct Hl as [Hl|Hl].
   - destruct (get_short_and_visible_aliases (fst p)) as [ss|] eqn:E; [|destruct Hl]. apply in_map_iff in Hl.
-    destruct Hl as (s & <- & Hs). apply run_opt_short_line; [exact Hcf|exact Ht|]. eapply tame_shorts; eassumption.
+    destruct Hl as (s & <- & Hs). apply run_opt_short_line; [exact Hcf|exact Ht|exact Hv|]. eapply tame_shorts; eassumption.
   - destruct (get_long_and_visible_aliases (fst p)) as [ss|] eqn:E; [|destruct Hl]. apply in_map_iff in Hl.
-    destruct Hl as (s & <- & Hs). apply run_opt_long_line; [exact Hcf|exact Ht|]. eapply tame_longs; eassumption.
+    destruct Hl as (s & <- & Hs). apply run_opt_long_line; [exact Hcf|exact Ht|exact Hv|]. eapply tame_longs; eassumption.
 Qed.
 
 Lemma run_zflag_line c g p dashes name :
@@ -654,13 +653,13 @@ Proof.
 Qed.
 
 Lemma run_positional_line card p :
-  tame card = true -> tame_arg (fst p) = true -> tame (a_id (fst p)) = true -> run_to zbare is_bs (positional_line card p).
+  pres is_sq is_sq card -> tame_arg (fst p) = true -> tame (a_id (fst p)) = true -> run_to zbare is_bs (positional_line card p).
 Proof.
   intros Hc Ht Hi. unfold positional_line.
   apply (run_to_app zbare is_sq is_bs [Zx ([39] ++ card ++ [58] ++ a_id (fst p))]).
   { apply run_to_zx.
     apply (pres_app zbare is_sq is_sq [39]); [apply pres_open_sq|].
-    apply (pres_app is_sq is_sq is_sq card); [apply pres_tame_sq; exact Hc|].
+    apply (pres_app is_sq is_sq is_sq card); [exact Hc|].
     apply (pres_app is_sq is_sq is_sq [58]); [lit_pres|apply pres_tame_sq; exact Hi]. }
   apply (run_to_app is_sq is_sq is_bs).
   { destruct (ad_help (snd p)); [apply run_to_zp|apply run_to_nil]. }
@@ -669,20 +668,31 @@ Proof.
   destruct (zvalue_completion p) as [val|] eqn:E; [eapply run_zvalue_completion; eassumption|apply run_to_nil].
 Qed.
 
-Definition ztame_arg (a : arg) : bool := tame_arg a && tame (a_id a).
+(** (the terminator is written through [escape_value], which keeps the shell word intact for EVERY terminator; the
+    [_arguments]-level reading of the ['*pattern:'] prefix wants it free of quotes) *)
+Definition ztame_arg (a : arg) : bool := tame_arg a && tame (a_id a) && vn_tame a && tame_opt (a_terminator a).
+Lemma ztame_arg_parts a :
+  ztame_arg a = true -> tame_arg a = true /\ tame (a_id a) = true /\ vn_tame a = true /\ tame_opt (a_terminator a) = true.
+Proof.
+  unfold ztame_arg. intros H. apply andb_true_iff in H. destruct H as [H H4]. apply andb_true_iff in H.
+  destruct H as [H H3]. apply andb_true_iff in H. tauto.
+Qed.
 
 Lemma run_positional_lines hs : forall l ce line,
   (forall p, In p l -> ztame_arg (fst p) = true) -> In line (positional_lines hs ce l) -> run_to zbare is_bs line.
 Proof.
   induction l as [|p l IH]; intros ce line Ht Hl; [destruct Hl|].
   assert (Hp : tame_arg (fst p) = true /\ tame (a_id (fst p)) = true).
-  { specialize (Ht p (or_introl eq_refl)). unfold ztame_arg in Ht. apply andb_true_iff in Ht. exact Ht. }
+  { specialize (Ht p (or_introl eq_refl)). apply ztame_arg_parts in Ht. tauto. }
   assert (Ht' : forall q, In q l -> ztame_arg (fst q) = true) by (intros q Hq; apply Ht; right; exact Hq).
   cbn [positional_lines] in Hl.
   destruct (ce && (arg_is_last (fst p) || (1 <? a_max_values (fst p)))); [eapply IH; eassumption|].
   destruct ((1 <? a_max_values (fst p)) && negb hs).
-  - unfold arg_terminator in Hl. destruct Hl as [<-|Hl]; [apply run_positional_line; [reflexivity|tauto|tauto]|eapply IH; eassumption].
-  - destruct (negb (a_required (fst p))); (destruct Hl as [<-|Hl]; [apply run_positional_line; [reflexivity|tauto|tauto]|eapply IH; eassumption]).
+  - unfold arg_terminator in Hl. destruct (a_terminator (fst p)) as [tm|].
+    + destruct Hl as [<-|Hl]; [apply run_positional_line; [|tauto|tauto]|eapply IH; eassumption].
+      apply (pres_app is_sq is_sq is_sq [42]); [lit_pres|]. apply (pres_app is_sq is_sq is_sq); [apply pres_escape_value|lit_pres].
+    + destruct Hl as [<-|Hl]; [apply run_positional_line; [lit_pres|tauto|tauto]|eapply IH; eassumption].
+  - destruct (negb (a_required (fst p))); (destruct Hl as [<-|Hl]; [apply run_positional_line; [lit_pres|tauto|tauto]|eapply IH; eassumption]).
 Qed.
 
 (** ---- commands whose names, aliases, argument names and bin names are tame ---- *)
@@ -721,7 +731,9 @@ Proof.
   apply zipd_in_l in Hin. apply (forallb_in _ _ _ Ha Hin).
 Qed.
 Lemma ztame_arg_tame a : ztame_arg a = true -> tame_arg a = true.
-Proof. unfold ztame_arg. intros H. apply andb_true_iff in H. tauto. Qed.
+Proof. intros H. apply ztame_arg_parts in H. tauto. Qed.
+Lemma ztame_arg_vn a : ztame_arg a = true -> vn_tame a = true.
+Proof. intros H. apply ztame_arg_parts in H. tauto. Qed.
 
 (** the exclusion list [(-x --exclude ...)] of an argument: spellings of arguments of the command written, of the parent
     or (global arguments) of subcommands of the parent -- tame when those commands are *)
@@ -733,17 +745,38 @@ Proof.
   destruct (existsb _ _); [|destruct Hm]. destruct Hm as [<-|Hm]; [apply desc_child; exact Hx|].
   eapply desc_step; [exact Hx|]. eapply IH; eassumption.
 Qed.
-Lemma conflicts_tame x blk a y : ztame_cmd x = true -> In y (get_arg_conflicts_with x blk a) -> ztame_arg y = true.
+Lemma map_opt_in_inv {A B} (f : A -> option B) : forall l r y,
+  map_opt f l = Some r -> In y r -> exists x, In x l /\ f x = Some y.
 Proof.
-  intros Ht Hin. unfold get_arg_conflicts_with in Hin.
+  induction l as [|h t IH]; intros r y E Hy.
+  - rewrite map_opt_nil in E. inversion E; subst. destruct Hy.
+  - rewrite map_opt_cons in E. destruct (f h) as [b|] eqn:Eh; [|discriminate].
+    destruct (map_opt f t) as [rt|] eqn:Et; [|discriminate]. inversion E; subst. destruct Hy as [<-|Hy].
+    + exists h. split; [left; reflexivity|exact Eh].
+    + destruct (IH rt y eq_refl Hy) as (x & Hx & Ex). exists x. split; [right; exact Hx|exact Ex].
+Qed.
+(** whatever a blacklist entry resolves to -- the argument of that id, or the members of the group of that id -- is an
+    argument of the command (or, for a global argument, of a subcommand that contains it) *)
+Lemma conflicts_tame x a l y : ztame_cmd x = true -> get_arg_conflicts_with x a = Some l -> In y l -> ztame_arg y = true.
+Proof.
+  intros Ht El Hin. unfold get_arg_conflicts_with in El.
   assert (Hargs : forall m, (m = x \/ desc x m) -> forall z, In z (c_args m) -> ztame_arg z = true).
   { intros m Hm z Hz. assert (Htm : ztame_cmd m = true) by (destruct Hm as [->|Hd]; [exact Ht|eapply ztame_desc; eassumption]).
     destruct (ztame_cmd_parts m Htm) as (_ & _ & Ha & _). apply (forallb_in _ _ _ Ha Hz). }
-  destruct (a_global a); apply filter_map_in in Hin; destruct Hin as (id & _ & Hf).
-  - apply find_some in Hf. destruct Hf as [Hf _]. apply in_app_or in Hf. destruct Hf as [Hf|Hf].
+  assert (Hfind : forall id z, find_arg x id = Some z -> ztame_arg z = true).
+  { intros id z Hf. unfold find_arg in Hf. apply find_some in Hf. destruct Hf as [Hf _]. apply (Hargs x (or_introl eq_refl) z Hf). }
+  destruct (a_global a).
+  - unfold get_global_arg_conflicts_with in El. destruct (map_opt_in_inv _ _ _ _ El Hin) as (id & _ & Hf).
+    apply find_some in Hf. destruct Hf as [Hf _]. apply in_app_or in Hf. destruct Hf as [Hf|Hf].
     + apply (Hargs x (or_introl eq_refl) y Hf).
     + apply in_flat_map in Hf. destruct Hf as (m & Hm & Hy). apply (Hargs m (or_intror (subcommands_containing_desc _ _ _ Hm)) y Hy).
-  - unfold find_arg in Hf. apply find_some in Hf. destruct Hf as [Hf _]. apply (Hargs x (or_introl eq_refl) y Hf).
+  - destruct (map_opt (conflict_targets x) (a_blacklist a)) as [ls|] eqn:Els; [|discriminate]. inversion El; subst l.
+    apply in_concat in Hin. destruct Hin as (ys & Hys & Hy).
+    destruct (map_opt_in_inv _ _ _ _ Els Hys) as (id & _ & Hid). unfold conflict_targets in Hid.
+    destruct (find_arg x id) as [z|] eqn:Ez.
+    + inversion Hid; subst ys. destruct Hy as [<-|[]]. apply (Hfind id z Ez).
+    + destruct (find_group x id); [|discriminate]. destruct (unroll_args_in_group x id) as [ids|]; [|discriminate].
+      destruct (map_opt_in_inv _ _ _ _ Hid Hy) as (n & _ & Hn). apply (Hfind n y Hn).
 Qed.
 Lemma tame_push_conflicts l : (forall y, In y l -> ztame_arg y = true) -> forall w, In w (push_conflicts l) -> tame w = true.
 Proof.
@@ -761,14 +794,14 @@ Proof.
 Qed.
 Lemma tame_arg_conflicts c a g : ztame_cmd c = true -> gtame g -> tame (arg_conflicts c a g) = true.
 Proof.
-  intros Ht Hg. unfold ZshModel.arg_conflicts.
-  set (conflicts := match g with Some x => if a_global a then _ else _ | None => _ end).
-  assert (Hc : forall y, In y conflicts -> ztame_arg y = true).
-  { intros y Hy. unfold conflicts in Hy. destruct g as [x|].
-    - destruct (a_global a) eqn:Eg; [eapply (conflicts_tame x); [apply Hg; reflexivity|exact Hy]|eapply (conflicts_tame c); [exact Ht|exact Hy]].
-    - eapply (conflicts_tame c); [exact Ht|exact Hy]. }
-  clearbody conflicts. destruct (is_nil conflicts); [reflexivity|].
-  rewrite !tame_app, (tame_intercalate' _ (tame_push_conflicts conflicts Hc)). reflexivity.
+  intros Ht Hg. unfold ZshModel.arg_conflicts, ZshModel.arg_conflicts_opt.
+  set (res := match g with Some x => if a_global a then _ else _ | None => _ end).
+  assert (Hc : forall conflicts y, res = Some conflicts -> In y conflicts -> ztame_arg y = true).
+  { intros conflicts y Er Hy. unfold res in Er. destruct g as [x|].
+    - destruct (a_global a) eqn:Eg; [eapply (conflicts_tame x); [apply Hg; reflexivity|exact Er|exact Hy]|eapply (conflicts_tame c); [exact Ht|exact Er|exact Hy]].
+    - eapply (conflicts_tame c); [exact Ht|exact Er|exact Hy]. }
+  clearbody res. destruct res as [conflicts|]; [|reflexivity]. destruct (is_nil conflicts); [reflexivity|].
+  rewrite !tame_app, (tame_intercalate' _ (tame_push_conflicts conflicts (fun y => Hc conflicts y eq_refl))). reflexivity.
 Qed.
 
 Lemma Some_inj {A} (a b : A) : Some a = Some b -> a = b.
@@ -785,7 +818,8 @@ Lemma run_write_opts_of c d g : ztame_cmd c = true -> gtame g -> run_to zbare zb
 Proof.
   intros Ht Hg. unfold ZshModel.write_opts_of. apply zjoin_run. intros x Hx. apply is_bs_zbb'.
   apply in_flat_map in Hx. destruct Hx as (p & Hp & Hx). apply filter_In in Hp.
-  apply (run_opt_lines c g p x); [apply tame_arg_conflicts; assumption| |exact Hx]. apply ztame_arg_tame. eapply ztame_args; [exact Ht|exact (proj1 Hp)].
+  apply (run_opt_lines c g p x); [apply tame_arg_conflicts; assumption| | |exact Hx];
+    [apply ztame_arg_tame|apply ztame_arg_vn]; (eapply ztame_args; [exact Ht|exact (proj1 Hp)]).
 Qed.
 Lemma run_write_flags_of c d g : ztame_cmd c = true -> gtame g -> run_to zbare zbb (write_flags_of c d g).
 Proof.
@@ -807,7 +841,7 @@ Proof. lit_pres. Qed.
 
 Lemma run_get_args_of c d g blk : ztame_cmd c = true -> gtame g -> get_args_of c d g = Some blk -> run_to zbare zbare blk.
 Proof.
-  intros Ht Hg. unfold ZshModel.get_args_of.
+  intros Ht Hg Hget. apply get_args_of_body in Hget. revert Hget. unfold ZshModel.args_body.
   set (A := if negb (is_nil (write_opts_of c d g)) then [write_opts_of c d g] else []).
   set (B := if negb (is_nil (write_flags_of c d g)) then [write_flags_of c d g] else []).
   set (C := if negb (is_nil (write_positionals_of c d)) then [write_positionals_of c d] else []).
@@ -1413,13 +1447,20 @@ Lemma run2_concat_repeat P x n : run2_to P P x -> run2_to P P (List.concat (repe
 Proof.
   intros H. induction n as [|n IH]; [apply run2_nil|]. cbn [repeat List.concat]. apply (run2_app P P P); assumption.
 Qed.
-Lemma run2_opt_vc p : tame_arg (fst p) = true -> run2_to is_field is_field (opt_vc p).
+Lemma run2_opt_vc p : tame_arg (fst p) = true -> vn_tame (fst p) = true -> run2_to is_field is_field (opt_vc p).
 Proof.
-  intros Ht. unfold opt_vc. apply run2_concat_repeat.
+  intros Ht Hv. unfold opt_vc. apply run2_concat_repeat.
+  pose proof (tame_value_name _ Hv) as Hvn.
+  assert (Hn : forall tl, nosq tl = true -> nosq (lit ":" ++ value_name (fst p) ++ tl) = true).
+  { intros tl Htl. rewrite !nosq_app, (tame_nosq _ Hvn), Htl. reflexivity. }
+  assert (Hp : forall tl, pres2 is_field is_field tl -> pres2 is_field is_field (lit ":" ++ value_name (fst p) ++ tl)).
+  { intros tl Htl. apply (pres2_app is_field is_field is_field); [lit_pres2|].
+    apply (pres2_app is_field is_field is_field); [apply pres2_tame_field; exact Hvn|exact Htl]. }
   destruct (zvalue_completion p) as [val|] eqn:E.
-  - apply (run2_app is_field is_field is_field [Zx (lit ": :")]); [apply run2_zx; [reflexivity|lit_pres2]|].
+  - apply (run2_app is_field is_field is_field [Zx (lit ":" ++ value_name (fst p) ++ lit ":")]).
+    { apply run2_zx; [apply Hn; reflexivity|apply Hp; lit_pres2]. }
     eapply run2_zvalue_completion; eassumption.
-  - apply run2_zx; [reflexivity|lit_pres2].
+  - apply run2_zx; [apply Hn; reflexivity|apply Hp; lit_pres2].
 Qed.
 
 Lemma tame_multiple a : tame (multiple_of a) = true.
@@ -1440,33 +1481,33 @@ Qed.
 
 Lemma run2_opt_short_line c g p s st :
   tame (arg_conflicts c (fst p) g) = true ->
-  tame_arg (fst p) = true -> tame s = true -> zbare st = true ->
+  tame_arg (fst p) = true -> vn_tame (fst p) = true -> tame s = true -> zbare st = true ->
   exists s2, zrun2 st ZsPre (opt_short_line c g p s) = Some (ZBS, s2).
 Proof.
-  intros Hcf Ht Hs Hst. unfold ZshModel.opt_short_line.
+  intros Hcf Ht Hv Hs Hst. unfold ZshModel.opt_short_line.
   destruct (spec_head_pres (arg_conflicts c (fst p) g) (multiple_of (fst p)) (lit "-") (s ++ lit "+") Hcf (tame_multiple _) eq_refl) as [Hn Hp].
   { rewrite tame_app, Hs. reflexivity. }
   rewrite <- !app_assoc in Hn, Hp.
   assert (R : run2_to slot_ok is_field ([Zh (text_or_default (ad_help (snd p))); Zx (lit "]")] ++ opt_vc p)).
   { apply (run2_app slot_ok slot_ok is_field [Zh (text_or_default (ad_help (snd p)))]); [apply run2_zh|].
     apply (run2_app slot_ok is_field is_field [Zx (lit "]")]); [apply run2_zx; [reflexivity|lit_pres2]|].
-    apply run2_opt_vc; exact Ht. }
+    apply run2_opt_vc; [exact Ht|exact Hv]. }
   destruct (R _ (Hp ZsPre eq_refl)) as (s2 & R2 & _).
   exists s2. apply (zrun2_line _ _ st ZsPre s2 Hst Hn R2).
 Qed.
 Lemma run2_opt_long_line c g p s st :
   tame (arg_conflicts c (fst p) g) = true ->
-  tame_arg (fst p) = true -> tame s = true -> zbare st = true ->
+  tame_arg (fst p) = true -> vn_tame (fst p) = true -> tame s = true -> zbare st = true ->
   exists s2, zrun2 st ZsPre (opt_long_line c g p s) = Some (ZBS, s2).
 Proof.
-  intros Hcf Ht Hs Hst. unfold ZshModel.opt_long_line.
+  intros Hcf Ht Hv Hs Hst. unfold ZshModel.opt_long_line.
   destruct (spec_head_pres (arg_conflicts c (fst p) g) (multiple_of (fst p)) (lit "--") (s ++ lit "=") Hcf (tame_multiple _) eq_refl) as [Hn Hp].
   { rewrite tame_app, Hs. reflexivity. }
   rewrite <- !app_assoc in Hn, Hp.
   assert (R : run2_to slot_ok is_field ([Zh (text_or_default (ad_help (snd p))); Zx (lit "]")] ++ opt_vc p)).
   { apply (run2_app slot_ok slot_ok is_field [Zh (text_or_default (ad_help (snd p)))]); [apply run2_zh|].
     apply (run2_app slot_ok is_field is_field [Zx (lit "]")]); [apply run2_zx; [reflexivity|lit_pres2]|].
-    apply run2_opt_vc; exact Ht. }
+    apply run2_opt_vc; [exact Ht|exact Hv]. }
   destruct (R _ (Hp ZsPre eq_refl)) as (s2 & R2 & _).
   exists s2. apply (zrun2_line _ _ st ZsPre s2 Hst Hn R2).
 Qed.
@@ -1482,16 +1523,44 @@ Proof.
   eexists. apply (zrun2_line' _ [Zh (text_or_default (ad_help (snd p)))] (lit "]") st ZsPre s2 Hst Hq eq_refl R2).
 Qed.
 
+(** the cardinality prefixes: ["*:"], [":"], [""] and ["*" ++ escape_value terminator ++ ":"] *)
+Definition card_ok (card : bytes) : Prop := nosq card = true /\ pres2 is_pre is_field (card ++ lit ":").
+Lemma escape_value_char_pre c : tame_byte c = true -> final zspec_step ZsPre (apply_chain zsh_escape_value_chain [c]) = ZsPre.
+Proof.
+  intros Hc. destruct (in_dec N.eq_dec c (keys zsh_escape_value_chain)) as [Hin|Hout].
+  - cbn in Hin. repeat (destruct Hin as [<-|Hin]; [try reflexivity; discriminate Hc|]). destruct Hin.
+  - rewrite apply_chain_other by (reflexivity || assumption).
+    cbn [final zspec_step fst].
+    destruct (c =? 92) eqn:E1; [exfalso; apply Hout; apply N.eqb_eq in E1; subst; cbn; tauto|].
+    destruct (c =? 91) eqn:E2; [exfalso; apply Hout; apply N.eqb_eq in E2; subst; cbn; tauto|].
+    destruct (c =? 58) eqn:E3; [exfalso; apply Hout; apply N.eqb_eq in E3; subst; cbn; tauto|]. reflexivity.
+Qed.
+Lemma pres2_escape_value_pre s : tame s = true -> pres2 is_pre is_pre (zsh_escape_value s).
+Proof.
+  unfold zsh_escape_value. rewrite apply_chain_charwise by reflexivity.
+  induction s as [|c s IH]; intros H; [apply pres2_nil|].
+  cbn [tame forallb] in H. apply andb_true_iff in H. destruct H as [Hc Hs]. cbn [flat_map].
+  apply (pres2_app is_pre is_pre is_pre); [|apply IH; exact Hs].
+  intros [] Hst; try discriminate. rewrite (escape_value_char_pre c Hc). reflexivity.
+Qed.
+Lemma card_ok_terminator t : tame t = true -> card_ok (lit "*" ++ zsh_escape_value t ++ lit ":").
+Proof.
+  intros Ht. split.
+  - rewrite !nosq_app, (nosq_escape_value _ Ht). reflexivity.
+  - rewrite <- !app_assoc. apply (pres2_app is_pre is_pre is_field); [lit_pres2|].
+    apply (pres2_app is_pre is_pre is_field); [apply pres2_escape_value_pre; exact Ht|lit_pres2].
+Qed.
+Lemma card_ok_fixed card : In card [lit "*:"; lit ":"; []] -> card_ok card.
+Proof. intros Hc. destruct Hc as [<-|[<-|[<-|[]]]]; (split; [reflexivity|lit_pres2]). Qed.
+
 Lemma run2_positional_line card p st :
-  In card [lit "*:"; lit ":"; []] -> tame_arg (fst p) = true -> tame (a_id (fst p)) = true -> zbare st = true ->
+  card_ok card -> tame_arg (fst p) = true -> tame (a_id (fst p)) = true -> zbare st = true ->
   exists s2, zrun2 st ZsPre (positional_line card p) = Some (ZBS, s2).
 Proof.
-  intros Hc Ht Hi Hst. unfold positional_line.
-  assert (Hcard : tame card = true /\ pres2 is_pre is_field (card ++ lit ":")).
-  { destruct Hc as [<-|[<-|[<-|[]]]]; (split; [reflexivity|lit_pres2]). }
+  intros Hcard Ht Hi Hst. unfold positional_line.
   destruct Hcard as [Hct Hcp].
   assert (Hn : nosq (card ++ lit ":" ++ a_id (fst p)) = true).
-  { rewrite !nosq_app, (tame_nosq _ Hct), (tame_nosq _ Hi). reflexivity. }
+  { rewrite !nosq_app, Hct, (tame_nosq _ Hi). reflexivity. }
   assert (Hp : pres2 is_pre is_field (card ++ lit ":" ++ a_id (fst p))).
   { rewrite app_assoc. apply (pres2_app is_pre is_field is_field); [exact Hcp|apply pres2_tame_field; exact Hi]. }
   assert (R : run2_to is_field is_field
@@ -1512,19 +1581,23 @@ Proof.
 Qed.
 
 Lemma positional_lines_cards hs : forall l ce line,
-  In line (positional_lines hs ce l) -> exists card p, In p l /\ In card [lit "*:"; lit ":"; []] /\ line = positional_line card p.
+  (forall p, In p l -> tame_opt (a_terminator (fst p)) = true) ->
+  In line (positional_lines hs ce l) -> exists card p, In p l /\ card_ok card /\ line = positional_line card p.
 Proof.
-  induction l as [|p l IH]; intros ce line Hl; [destruct Hl|]. cbn [positional_lines] in Hl.
+  induction l as [|p l IH]; intros ce line Htm Hl; [destruct Hl|]. cbn [positional_lines] in Hl.
   assert (Hrec : forall ce', In line (positional_lines hs ce' l) ->
-                   exists card q, In q (p :: l) /\ In card [lit "*:"; lit ":"; []] /\ line = positional_line card q).
-  { intros ce' H. destruct (IH ce' line H) as (card & q & Hq & Hc & E). exists card, q. split; [right; exact Hq|tauto]. }
+                   exists card q, In q (p :: l) /\ card_ok card /\ line = positional_line card q).
+  { intros ce' H. destruct (IH ce' line (fun q Hq => Htm q (or_intror Hq)) H) as (card & q & Hq & Hc & E).
+    exists card, q. split; [right; exact Hq|tauto]. }
   destruct (ce && (arg_is_last (fst p) || (1 <? a_max_values (fst p)))); [apply (Hrec _ Hl)|].
   destruct ((1 <? a_max_values (fst p)) && negb hs).
-  - unfold arg_terminator in Hl. destruct Hl as [<-|Hl]; [|apply (Hrec _ Hl)].
-    exists (lit "*:"), p. split; [left; reflexivity|]. split; [left; reflexivity|reflexivity].
+  - unfold arg_terminator in Hl. pose proof (Htm p (or_introl eq_refl)) as Hpt.
+    destruct (a_terminator (fst p)) as [tm|]; (destruct Hl as [<-|Hl]; [|apply (Hrec _ Hl)]).
+    + eexists; exists p. split; [left; reflexivity|]. split; [apply card_ok_terminator; exact Hpt|reflexivity].
+    + exists (lit "*:"), p. split; [left; reflexivity|]. split; [apply card_ok_fixed; left; reflexivity|reflexivity].
   - destruct (negb (a_required (fst p))); (destruct Hl as [<-|Hl]; [|apply (Hrec _ Hl)]).
-    + exists (lit ":"), p. split; [left; reflexivity|]. split; [right; left; reflexivity|reflexivity].
-    + exists [], p. split; [left; reflexivity|]. split; [right; right; left; reflexivity|reflexivity].
+    + exists (lit ":"), p. split; [left; reflexivity|]. split; [apply card_ok_fixed; right; left; reflexivity|reflexivity].
+    + exists [], p. split; [left; reflexivity|]. split; [apply card_ok_fixed; right; right; left; reflexivity|reflexivity].
 Qed.
 
 Lemma run2_describe_entry about w st :
@@ -1552,16 +1625,19 @@ Theorem zsh_spec_lines_run2 c d g line st :
   exists s2, zrun2 st ZsPre line = Some (ZBS, s2).
 Proof.
   intros Ht Hg Hl Hst. destruct Hl as [(p & Hp & Hl)|[Hl|(sc & sd & w & Hin & Hw & ->)]].
-  - pose proof (ztame_arg_tame _ (ztame_args c d p Ht Hp)) as Hta. destruct Hl as [Hl|Hl].
+  - pose proof (ztame_arg_tame _ (ztame_args c d p Ht Hp)) as Hta. pose proof (ztame_arg_vn _ (ztame_args c d p Ht Hp)) as Htv.
+    destruct Hl as [Hl|Hl].
     + unfold ZshModel.opt_lines in Hl. apply in_app_or in Hl. destruct Hl as [Hl|Hl].
       * destruct (get_short_and_visible_aliases (fst p)) as [ss|] eqn:E; [|destruct Hl]. apply in_map_iff in Hl.
-        destruct Hl as (s & <- & Hs). apply run2_opt_short_line; [apply tame_arg_conflicts; assumption|exact Hta|eapply tame_shorts; eassumption|exact Hst].
+        destruct Hl as (s & <- & Hs). apply run2_opt_short_line; [apply tame_arg_conflicts; assumption|exact Hta|exact Htv|eapply tame_shorts; eassumption|exact Hst].
       * destruct (get_long_and_visible_aliases (fst p)) as [ss|] eqn:E; [|destruct Hl]. apply in_map_iff in Hl.
-        destruct Hl as (s & <- & Hs). apply run2_opt_long_line; [apply tame_arg_conflicts; assumption|exact Hta|eapply tame_longs; eassumption|exact Hst].
+        destruct Hl as (s & <- & Hs). apply run2_opt_long_line; [apply tame_arg_conflicts; assumption|exact Hta|exact Htv|eapply tame_longs; eassumption|exact Hst].
     + rewrite flag_lines_spellings in Hl. apply in_map_iff in Hl. destruct Hl as (x & <- & Hx).
       destruct (tame_flag_spellings _ _ Hta Hx) as [H1 H2]. apply run2_zflag_line; [apply tame_arg_conflicts; assumption|assumption|assumption|assumption].
-  - destruct (positional_lines_cards _ _ _ _ Hl) as (card & p & Hp & Hc & ->). apply filter_In in Hp.
-    pose proof (ztame_args c d p Ht (proj1 Hp)) as Hz. unfold ztame_arg in Hz. apply andb_true_iff in Hz.
+  - destruct (positional_lines_cards _ _ _ _ (fun q Hq => proj2 (proj2 (proj2 (ztame_arg_parts _
+                 (ztame_args c d q Ht (proj1 (proj1 (filter_In _ _ _) Hq)))))) ) Hl) as (card & p & Hp & Hc & ->).
+    apply filter_In in Hp.
+    pose proof (ztame_arg_parts _ (ztame_args c d p Ht (proj1 Hp))) as Hz.
     apply run2_positional_line; tauto.
   - apply run2_describe_entry; [|exact Hst]. apply zipd_in_l in Hin. exact (ztame_names sc w (ztame_sub _ _ Ht Hin) Hw).
 Qed.
@@ -1593,7 +1669,6 @@ Qed.
 Lemma zsh_tooltip_dquote_boundary :
   zsh_escape_help [34] = [34] /\ zsh_l1 [34] = [34] /\ final sh_step ZDQ [34] = ZW.
 Proof. repeat split. Qed.
-End WithBlacklist.
 
 (** ---- non-vacuity and the class boundary ---- *)
 Definition zl_adv_text : bytes := lit "it's a ""$(rm -rf /)"" `x` [y]: \ end".
@@ -1606,14 +1681,14 @@ Definition zl_inn : cdesc := innocuous_desc zl_adv.
 
 Example zsh_text_invariance_hyps :
   ztame_cmd zx_root = true /\ erase_desc zl_adv = erase_desc zl_inn /\ zl_adv <> zl_inn /\
-  exists s1 s2, zsh_script bl0 zx_root zl_adv = Some s1 /\ zsh_script bl0 zx_root zl_inn = Some s2 /\ s1 <> s2.
+  exists s1 s2, zsh_script zx_root zl_adv = Some s1 /\ zsh_script zx_root zl_inn = Some s2 /\ s1 <> s2.
 Proof.
   split; [reflexivity|]. split; [reflexivity|]. split; [discriminate|].
-  destruct (zsh_script bl0 zx_root zl_adv) as [s1|] eqn:E1; [|vm_compute in E1; discriminate].
-  destruct (zsh_script bl0 zx_root zl_inn) as [s2|] eqn:E2; [|vm_compute in E2; discriminate].
+  destruct (zsh_script zx_root zl_adv) as [s1|] eqn:E1; [|vm_compute in E1; discriminate].
+  destruct (zsh_script zx_root zl_inn) as [s2|] eqn:E2; [|vm_compute in E2; discriminate].
   exists s1, s2. split; [reflexivity|]. split; [reflexivity|].
   intros E. subst s2.
-  assert (Hb : match zsh_script bl0 zx_root zl_adv, zsh_script bl0 zx_root zl_inn with
+  assert (Hb : match zsh_script zx_root zl_adv, zsh_script zx_root zl_inn with
                | Some a, Some b => beq a b | _, _ => true end = false) by (vm_compute; reflexivity).
   rewrite E1, E2, beq_refl in Hb. discriminate.
 Qed.
@@ -1625,17 +1700,61 @@ Definition zl_untame_cmd : cmd := mkCmd (lit "p") [] [zl_untame_arg] [] (Some (l
 Lemma zsh_untamed_name_refuted :
   exists c d1 d2 s1 s2,
     ztame_cmd c = false /\ erase_desc d1 = erase_desc d2 /\
-    zsh_script bl0 c d1 = Some s1 /\ zsh_script bl0 c d2 = Some s2 /\
+    zsh_script c d1 = Some s1 /\ zsh_script c d2 = Some s2 /\
     skeleton (events sh_step ZB s1) <> skeleton (events sh_step ZB s2).
 Proof.
   exists zl_untame_cmd, (mkCd None false [mkAd (Some (lit "x y")) false []] []),
          (mkCd None false [mkAd (Some (lit "xy")) false []] []).
-  destruct (zsh_script bl0 zl_untame_cmd (mkCd None false [mkAd (Some (lit "x y")) false []] [])) as [s1|] eqn:E1;
+  destruct (zsh_script zl_untame_cmd (mkCd None false [mkAd (Some (lit "x y")) false []] [])) as [s1|] eqn:E1;
     [|vm_compute in E1; discriminate].
-  destruct (zsh_script bl0 zl_untame_cmd (mkCd None false [mkAd (Some (lit "xy")) false []] [])) as [s2|] eqn:E2;
+  destruct (zsh_script zl_untame_cmd (mkCd None false [mkAd (Some (lit "xy")) false []] [])) as [s2|] eqn:E2;
     [|vm_compute in E2; discriminate].
   exists s1, s2. split; [reflexivity|]. split; [reflexivity|]. split; [reflexivity|]. split; [reflexivity|].
   vm_compute in E1. vm_compute in E2. apply Some_inj in E1. apply Some_inj in E2. subst s1 s2.
   vm_compute. discriminate.
 Qed.
 
+
+(** ---- round 4: value names and value terminators ---- *)
+(** in the class: a value name and a terminator without quote / backslash / hash ([ztame_arg] asks for both); the whole-script
+    theorems above then cover option specs [':FILE:'] and positional specs ['*;:'] *)
+Definition zl_vn_opt : arg :=
+  mkArgX (lit "o") None (Some (lit "out")) [] [] ASet None None None false false false [lit "FILE"] None false [] [].
+Definition zl_term_pos : arg :=
+  mkArgX (lit "src") None None [] [] ASet (Some (1, 3)) None None false false false [] (Some (lit "a b;")) false [] [].
+Definition zl_last_pos : arg :=
+  mkArgX (lit "rest") None None [] [] ASet None None None false false false [] None true [] [].
+Definition zl_ext_cmd : cmd := mkCmd (lit "p") [] [zl_vn_opt; zl_term_pos; zl_last_pos] [] (Some (lit "p")) false false sets0 sets0.
+Example zsh_tame_value_name_terminator :
+  ztame_cmd zl_ext_cmd = true /\
+  exists s, zsh_script zl_ext_cmd cd0 = Some s /\
+    binfix (lit "'--out=[]:FILE:_default' \") s = true /\ binfix (lit "'*a\ b;::src:_default' \") s = true /\
+    binfix (lit "'::rest:_default' \") s = true.
+Proof.
+  split; [reflexivity|]. destruct (zsh_script zl_ext_cmd cd0) as [s|] eqn:E; [|vm_compute in E; discriminate].
+  exists s. split; [reflexivity|]. vm_compute in E. inversion E; subst s. vm_compute. repeat split; reflexivity.
+Qed.
+
+(** class boundary: a VALUE NAME with a single quote is written unescaped between the colons of the option spec; it ends the
+    quoted spec early, and the help of the NEXT option is read outside the quotes, where a space separates words (the
+    family of the recorded finding C17-names-unescaped) *)
+Definition zl_untame_vn : arg :=
+  mkArgX (lit "o") None (Some (lit "out")) [] [] ASet None None None false false false [lit "a'b"] None false [] [].
+Definition zl_after_vn : arg := mkArg (lit "q") None (Some (lit "quiet")) [] [] ASetTrue None None None false false false.
+Definition zl_untame_vn_cmd : cmd := mkCmd (lit "p") [] [zl_untame_vn; zl_after_vn] [] (Some (lit "p")) false false sets0 sets0.
+Lemma zsh_untamed_value_name_refuted :
+  exists c d1 d2 s1 s2,
+    ztame_cmd c = false /\ erase_desc d1 = erase_desc d2 /\
+    zsh_script c d1 = Some s1 /\ zsh_script c d2 = Some s2 /\
+    skeleton (events sh_step ZB s1) <> skeleton (events sh_step ZB s2).
+Proof.
+  exists zl_untame_vn_cmd, (mkCd None false [mkAd None false []; mkAd (Some (lit "x y")) false []] []),
+         (mkCd None false [mkAd None false []; mkAd (Some (lit "xy")) false []] []).
+  destruct (zsh_script zl_untame_vn_cmd (mkCd None false [mkAd None false []; mkAd (Some (lit "x y")) false []] [])) as [s1|] eqn:E1;
+    [|vm_compute in E1; discriminate].
+  destruct (zsh_script zl_untame_vn_cmd (mkCd None false [mkAd None false []; mkAd (Some (lit "xy")) false []] [])) as [s2|] eqn:E2;
+    [|vm_compute in E2; discriminate].
+  exists s1, s2. split; [reflexivity|]. split; [reflexivity|]. split; [reflexivity|]. split; [reflexivity|].
+  vm_compute in E1. vm_compute in E2. apply Some_inj in E1. apply Some_inj in E2. subst s1 s2.
+  vm_compute. discriminate.
+Qed.
